@@ -7,6 +7,8 @@ STATIC_THEOREMS = [
     'SnapraidVerif.Props.C08.other_stripes_unaffected',
     'SnapraidVerif.Props.C08.async_writer_sound_when_collected',
     'SnapraidVerif.Props.C08.c08_counter_write',
+    'SnapraidVerif.Props.C08.io_error_never_protects_with_limit',
+    'SnapraidVerif.Props.C08.c08_counter_limit',
 ]
 
 def parse_failed_call(logpath):
@@ -114,6 +116,11 @@ def scenario(exe, shim, root, seed, stats, tier):
             problems.append('no loadable content file after the faulty run')
         else:
           unm = 0
+          # when the run stops at the error limit ("Stopping at block N"), reads of LATER stripes may already have been
+          # issued by the read-ahead threads: those stripes were never processed, their errors never collected
+          import re as _re
+          mstop = _re.search(r'Stopping at block (\d+)', r.out)
+          stop_at = int(mstop.group(1)) if mstop else None
           for fop, fpath, foff in fails:
             # which stripe was hit
             if sub == '/par/':
@@ -130,6 +137,9 @@ def scenario(exe, shim, root, seed, stats, tier):
                 if pos is None:
                     stats['unmapped'] += 1
                     continue
+            if stop_at is not None and pos > stop_at:
+                stats['beyond_stop'] = stats.get('beyond_stop', 0) + 1
+                continue
             allblk, bad, nblk = stripe_state(a, dec, pos)
             tag = '%s-%s' % ('write' if op == 'pwrite' else 'read', 'parity' if sub == '/par/' else 'data')
             if r.rc == 0:
